@@ -319,12 +319,35 @@ fn silence(w: &mut World, _ctx: &RunCtx, states: &mut Vec<u64>) -> Result<(), Vi
             w.count("c15_addresses_learned_behind_silent_node");
         }
     }
-    for i in 0..n {
-        if i != s {
-            w.partition(s, i, true);
+    // selective silence: only what the node sends on its own account (announcements, keepalives, rotation and
+    // handshake messages) is lost; the payload it reads from its interface still arrives. Payload is no sign of
+    // life: without node information or keepalive the peer times out all the same.
+    let selective = !learning && w.ch.chance("selective_silence", 300);
+    if selective {
+        w.control_lost.insert(s);
+        w.count("c15_selective_silence");
+        let span = (0..n).map(|i| w.nodes[i].cfg.peer_timeout).max().unwrap_or(300) as u64 + 10;
+        let gap = 1_000 + w.ch.choose("payload_gap_ms", 4_000) as u64;
+        let mut t = w.now_ms + 500;
+        let mut k = 0u32;
+        while t < w.now_ms + span * 1000 {
+            for i in 0..n {
+                if i != s {
+                    k += 1;
+                    let f = mesh::ipv4_packet(mesh::tun_ip(s), mesh::tun_ip(i), &k.to_be_bytes());
+                    w.schedule_frame(t, s, f);
+                }
+            }
+            t += gap;
+        }
+    } else {
+        for i in 0..n {
+            if i != s {
+                w.partition(s, i, true);
+            }
         }
     }
-    w.note(|| format!("n{} goes silent (all its datagrams are dropped in both directions)", s));
+    w.note(|| format!("n{} goes silent ({})", s, if selective { "its control traffic is lost, its payload still arrives" } else { "all its datagrams are dropped in both directions" }));
     states.push(mesh::abstract_state(w));
     // per observer: last known expiry of the silent peer
     let mut expiry: BTreeMap<usize, i64> = BTreeMap::new();
